@@ -161,8 +161,14 @@ func randMsg(r *rand.Rand) []byte {
 			v.WriteString(valAlphabet[r.Intn(len(valAlphabet))])
 		}
 		val := v.String()
-		if r.Intn(15) == 0 {
-			val = strings.Repeat("x", 3000+r.Intn(3000)) + "10=" // long field (longer than bufio's 4096 buffer)
+		if r.Intn(12) == 0 {
+			// a field longer than bufio's 4096-byte buffer, with "10=" inside the value — half of the time exactly
+			// where a buffer-sized piece of the field would start
+			nx := 3000 + r.Intn(3000)
+			if r.Intn(2) == 0 {
+				nx = 4096*(1+r.Intn(2)) - len(tag) - 1 + []int{-1, 0, 0, 0, 1}[r.Intn(5)]
+			}
+			val = strings.Repeat("x", nx) + "10=" + strconv.Itoa(r.Intn(1000))
 		}
 		sb.WriteString(tag + "=" + val + "\x01")
 	}
